@@ -79,9 +79,15 @@ type evaluator struct {
 	// opaque calls (by callee name) whose result is unknown but harmless
 	steps   int
 	globals map[*ssa.Global]*evVal
+	gobjs   map[*ssa.Global]*evObj
+	gscal   map[*ssa.Package]*evObj
+	inited  map[*ssa.Package]bool
+	lenient bool
 }
 
-func newEvaluator(p *Program) *evaluator { return &evaluator{p: p, globals: map[*ssa.Global]*evVal{}} }
+func newEvaluator(p *Program) *evaluator {
+	return &evaluator{p: p, globals: map[*ssa.Global]*evVal{}, gobjs: map[*ssa.Global]*evObj{}, gscal: map[*ssa.Package]*evObj{}, inited: map[*ssa.Package]bool{}}
+}
 
 func wrapInt(c constant.Value, t types.Type) constant.Value {
 	b, ok := t.Underlying().(*types.Basic)
@@ -153,12 +159,185 @@ func (e *evaluator) run(fn *ssa.Function, args []evVal, depth int) evStop {
 		case *ssa.Function:
 			return evVal{k: evFunc, fn: x}
 		case *ssa.Global:
+			if o := e.globalObj(x); o != nil {
+				return evVal{k: evObject, obj: o}
+			}
 			return evVal{}
 		}
 		if r, ok := env[v]; ok {
 			return r
 		}
 		return evVal{}
+	}
+	// ---- memory: objects (structs, arrays, tables) with named slots; scalars of local variables in cells ----
+	isAggregate := func(t types.Type) bool {
+		switch derefType(t).Underlying().(type) {
+		case *types.Struct, *types.Array:
+			return true
+		}
+		return false
+	}
+	newObjFor := func(t types.Type) *evObj {
+		o := &evObj{typ: t, fields: map[string]evVal{}}
+		if arr, ok := t.Underlying().(*types.Array); ok {
+			o.fields["len"] = evInt(arr.Len(), types.Typ[types.Int])
+		}
+		return o
+	}
+	var addrOf func(a ssa.Value, d int) (*evObj, string)
+	// objectAt: the object an address expression points to (created on first touch when it is a struct or array slot)
+	objectAt := func(a ssa.Value, d int) *evObj {
+		o, key := addrOf(a, d)
+		if o == nil {
+			return nil
+		}
+		if key == "" {
+			return o
+		}
+		if slot, ok := o.fields[key]; ok && slot.k == evObject {
+			return slot.obj
+		}
+		if pt, ok := a.Type().Underlying().(*types.Pointer); ok && isAggregate(pt.Elem()) {
+			n := newObjFor(pt.Elem())
+			o.fields[key] = evVal{k: evObject, obj: n}
+			return n
+		}
+		return nil
+	}
+	addrOf = func(a ssa.Value, d int) (*evObj, string) {
+		if d > 8 {
+			return nil, ""
+		}
+		switch x := a.(type) {
+		case *ssa.Alloc:
+			if c := cells[x]; c != nil && c.k == evObject && isAggregate(x.Type()) {
+				return c.obj, ""
+			}
+			return nil, ""
+		case *ssa.Global:
+			if isAggregate(x.Type()) {
+				return e.globalObj(x), ""
+			}
+			return e.globalScalars(x.Pkg), "g:" + x.Name()
+		case *ssa.FieldAddr:
+			base := objectAt(x.X, d+1)
+			st := derefStruct(x.X.Type())
+			if base == nil || st == nil {
+				return nil, ""
+			}
+			return base, st.Field(x.Field).Name()
+		case *ssa.IndexAddr:
+			idx := get(x.Index)
+			if idx.k != evConst {
+				return nil, ""
+			}
+			var base *evObj
+			if _, isPtr := x.X.Type().Underlying().(*types.Pointer); isPtr {
+				base = objectAt(x.X, d+1)
+			} else if v := get(x.X); v.k == evObject {
+				base = v.obj // a slice that shares its array
+			}
+			if base == nil {
+				return nil, ""
+			}
+			return base, "#" + idx.c.ExactString()
+		}
+		if v := get(a); v.k == evObject {
+			return v.obj, ""
+		}
+		return nil, ""
+	}
+	loadFrom := func(a ssa.Value) evVal {
+		if al, ok := a.(*ssa.Alloc); ok && !isAggregate(al.Type()) {
+			if c := cells[al]; c != nil {
+				return *c
+			}
+			return evVal{}
+		}
+		o, key := addrOf(a, 0)
+		if o == nil {
+			return evVal{}
+		}
+		if key == "" {
+			return evVal{k: evObject, obj: o}
+		}
+		if v, ok := o.fields[key]; ok {
+			return v
+		}
+		if pt, ok := a.Type().Underlying().(*types.Pointer); ok && isAggregate(pt.Elem()) {
+			return evVal{k: evObject, obj: objectAt(a, 0)}
+		}
+		return evVal{}
+	}
+	storeTo := func(a ssa.Value, v evVal) {
+		if al, ok := a.(*ssa.Alloc); ok && !isAggregate(al.Type()) {
+			cells[al] = &v
+			return
+		}
+		o, key := addrOf(a, 0)
+		if o == nil {
+			return
+		}
+		if key == "" {
+			if v.k == evObject {
+				for k2, f := range v.obj.fields {
+					o.fields[k2] = f
+				}
+			}
+			return
+		}
+		o.fields[key] = v
+	}
+	_ = loadFrom
+	_ = storeTo
+	if e.lenient {
+		// the package initialiser: every store is carried out, block after block, whatever the branches say
+		for _, blk := range fn.Blocks {
+			for _, in := range blk.Instrs {
+				switch x := in.(type) {
+				case *ssa.Alloc:
+					if isAggregate(x.Type()) {
+						o := evVal{k: evObject, obj: newObjFor(derefType(x.Type()))}
+						env[x] = o
+						cells[x] = &o
+					}
+				case *ssa.Store:
+					storeTo(x.Addr, get(x.Val))
+				case *ssa.MakeInterface:
+					v := get(x.X)
+					env[x] = evVal{k: evIface, t: x.X.Type(), inner: &v}
+				case *ssa.Convert:
+					v := get(x.X)
+					if v.k == evConst {
+						v.t = x.Type()
+					}
+					env[x] = v
+				case *ssa.ChangeType:
+					env[x] = get(x.X)
+				case *ssa.Slice:
+					if x.Low == nil && x.High == nil {
+						if o := objectAt(x.X, 0); o != nil {
+							env[x] = evVal{k: evObject, obj: o}
+						}
+					}
+				case *ssa.UnOp:
+					if x.Op == token.MUL {
+						env[x] = loadFrom(x.X)
+					}
+				case *ssa.MakeMap:
+					env[x] = evVal{k: evObject, obj: &evObj{typ: x.Type(), fields: map[string]evVal{}}}
+				case *ssa.MapUpdate:
+					if m, k := get(x.Map), get(x.Key); m.k == evObject && k.k == evConst {
+						m.obj.fields["k:"+k.c.ExactString()] = get(x.Value)
+					}
+				case *ssa.MakeClosure:
+					if f, ok := x.Fn.(*ssa.Function); ok && len(x.Bindings) == 0 {
+						env[x] = evVal{k: evFunc, fn: f}
+					}
+				}
+			}
+		}
+		return evStop{kind: "return"}
 	}
 	b := fn.Blocks[0]
 	var pred *ssa.BasicBlock
@@ -180,42 +359,7 @@ func (e *evaluator) run(fn *ssa.Function, args []evVal, depth int) evStop {
 				env[x] = e.binop(x, get(x.X), get(x.Y))
 			case *ssa.UnOp:
 				if x.Op == token.MUL {
-					switch a := x.X.(type) {
-					case *ssa.Alloc:
-						if c := cells[a]; c != nil {
-							env[x] = *c
-						} else {
-							env[x] = evVal{}
-						}
-					case *ssa.FieldAddr:
-						env[x] = evVal{}
-						if base := get(a.X); base.k == evObject {
-							if st := derefStruct(a.X.Type()); st != nil {
-								if f, ok := base.obj.fields[st.Field(a.Field).Name()]; ok {
-									env[x] = f
-								}
-							}
-						}
-					case *ssa.IndexAddr:
-						env[x] = evVal{}
-						if base, idx := get(a.X), get(a.Index); base.k == evObject && idx.k == evConst {
-							if f, ok := base.obj.fields["#"+idx.c.ExactString()]; ok {
-								env[x] = f
-							}
-						}
-					case *ssa.Global:
-						env[x] = evVal{}
-						if g := e.global(a); g != nil {
-							env[x] = *g
-						}
-					default:
-						// a pointer to an object held in the environment
-						if v := get(x.X); v.k == evObject {
-							env[x] = v
-						} else {
-							env[x] = evVal{}
-						}
-					}
+					env[x] = loadFrom(x.X)
 					continue
 				}
 				env[x] = e.unop(x, get(x.X), cells)
@@ -243,14 +387,9 @@ func (e *evaluator) run(fn *ssa.Function, args []evVal, depth int) evStop {
 			case *ssa.ChangeInterface:
 				env[x] = get(x.X)
 			case *ssa.Alloc:
-				if arr, ok := derefType(x.Type()).Underlying().(*types.Array); ok {
-					// a small array (the backing store of variadic arguments, a literal table): elements by index
-					o := evVal{k: evObject, obj: &evObj{typ: derefType(x.Type()), fields: map[string]evVal{"len": evInt(arr.Len(), types.Typ[types.Int])}}}
-					env[x] = o
-					cells[x] = &o
-				} else if st := derefStruct(x.Type()); st != nil {
-					// a struct variable or literal: pointer and value are the same object here
-					o := evVal{k: evObject, obj: &evObj{typ: derefType(x.Type()), fields: map[string]evVal{}}}
+				if isAggregate(x.Type()) {
+					// a struct or array variable or literal: pointer and value are the same object here
+					o := evVal{k: evObject, obj: newObjFor(derefType(x.Type()))}
 					env[x] = o
 					cells[x] = &o
 				} else {
@@ -258,27 +397,7 @@ func (e *evaluator) run(fn *ssa.Function, args []evVal, depth int) evStop {
 					cells[x] = &z
 				}
 			case *ssa.Store:
-				if a, ok := x.Addr.(*ssa.Alloc); ok {
-					v := get(x.Val)
-					if cur := cells[a]; cur != nil && cur.k == evObject && v.k == evObject {
-						// whole-struct copy into a struct variable
-						for k2, f := range v.obj.fields {
-							cur.obj.fields[k2] = f
-						}
-					} else {
-						cells[a] = &v
-					}
-				} else if fa, ok := x.Addr.(*ssa.FieldAddr); ok {
-					if base := get(fa.X); base.k == evObject {
-						if st := derefStruct(fa.X.Type()); st != nil {
-							base.obj.fields[st.Field(fa.Field).Name()] = get(x.Val)
-						}
-					}
-				} else if ia, ok := x.Addr.(*ssa.IndexAddr); ok {
-					if base, idx := get(ia.X), get(ia.Index); base.k == evObject && idx.k == evConst {
-						base.obj.fields["#"+idx.c.ExactString()] = get(x.Val)
-					}
-				}
+				storeTo(x.Addr, get(x.Val))
 			case *ssa.FieldAddr, *ssa.IndexAddr:
 				// resolved at the load
 			case *ssa.Field:
@@ -305,17 +424,38 @@ func (e *evaluator) run(fn *ssa.Function, args []evVal, depth int) evStop {
 				env[x] = e.lookup(x, get(x.X), get(x.Index))
 			case *ssa.Index:
 				env[x] = evVal{}
-			case *ssa.Slice:
-				if x.Low == nil && x.High == nil {
-					env[x] = get(x.X)
-				} else {
-					env[x] = evVal{}
+				if base, idx := get(x.X), get(x.Index); base.k == evObject && idx.k == evConst {
+					if f, ok := base.obj.fields["#"+idx.c.ExactString()]; ok {
+						env[x] = f
+					}
 				}
-			case *ssa.MakeSlice, *ssa.MakeMap, *ssa.MakeChan, *ssa.MakeClosure, *ssa.Range, *ssa.Next, *ssa.Select, *ssa.SliceToArrayPointer:
+			case *ssa.Slice:
+				env[x] = evVal{}
+				if x.Low == nil && x.High == nil {
+					if _, isPtr := x.X.Type().Underlying().(*types.Pointer); isPtr {
+						if o := objectAt(x.X, 0); o != nil {
+							env[x] = evVal{k: evObject, obj: o}
+						}
+					} else {
+						env[x] = get(x.X)
+					}
+				}
+			case *ssa.MakeMap:
+				env[x] = evVal{k: evObject, obj: &evObj{typ: x.Type(), fields: map[string]evVal{}}}
+			case *ssa.MakeClosure:
+				env[x] = evVal{}
+				if f, ok := x.Fn.(*ssa.Function); ok && len(x.Bindings) == 0 {
+					env[x] = evVal{k: evFunc, fn: f}
+				}
+			case *ssa.MakeSlice, *ssa.MakeChan, *ssa.Range, *ssa.Next, *ssa.Select, *ssa.SliceToArrayPointer:
 				if v, ok := in.(ssa.Value); ok {
 					env[v] = evVal{}
 				}
-			case *ssa.MapUpdate, *ssa.Send, *ssa.Go, *ssa.Defer, *ssa.RunDefers:
+			case *ssa.MapUpdate:
+				if m, k := get(x.Map), get(x.Key); m.k == evObject && k.k == evConst {
+					m.obj.fields["k:"+k.c.ExactString()] = get(x.Value)
+				}
+			case *ssa.Send, *ssa.Go, *ssa.Defer, *ssa.RunDefers:
 			case *ssa.Call:
 				args := []evVal{}
 				cc := &x.Call
@@ -529,72 +669,53 @@ func (e *evaluator) call(x *ssa.Call, cc *ssa.CallCommon, args []evVal, get func
 	return evVal{}
 }
 
-// global: the constant contents of a package-level table (a map or slice built by the package initialiser from
-// constant keys and values); nil when the variable is not of that kind.
-func (e *evaluator) global(g *ssa.Global) *evVal {
-	if v, ok := e.globals[g]; ok {
-		return v
+// ---- package-level variables ----
+//
+// The package initialiser is run once in a lenient mode (every store carried out, branches ignored): that gives the
+// contents of constant tables (maps, arrays and slices of constants, of small structs, of function literals).
+
+func (e *evaluator) initPackage(pkg *ssa.Package) {
+	if pkg == nil || e.inited[pkg] {
+		return
 	}
-	e.globals[g] = nil
-	if g.Pkg == nil {
+	e.inited[pkg] = true
+	init := pkg.Func("init")
+	if init == nil || init.Blocks == nil {
+		return
+	}
+	sub := &evaluator{p: e.p, globals: e.globals, gobjs: e.gobjs, gscal: e.gscal, inited: e.inited, lenient: true}
+	sub.run(init, nil, 0)
+}
+
+func (e *evaluator) globalObj(g *ssa.Global) *evObj {
+	if o, ok := e.gobjs[g]; ok {
+		e.initPackage(g.Pkg)
+		return o
+	}
+	switch derefType(g.Type()).Underlying().(type) {
+	case *types.Struct, *types.Array:
+	default:
 		return nil
 	}
-	init := g.Pkg.Func("init")
-	if init == nil {
-		return nil
+	o := &evObj{typ: derefType(g.Type()), fields: map[string]evVal{}}
+	if arr, ok := derefType(g.Type()).Underlying().(*types.Array); ok {
+		o.fields["len"] = evInt(arr.Len(), types.Typ[types.Int])
 	}
-	tab := &evObj{typ: g.Type(), fields: map[string]evVal{}}
-	var mapVal ssa.Value
-	eachInstr(init, func(in ssa.Instruction) {
-		if st, ok := in.(*ssa.Store); ok && st.Addr == ssa.Value(g) {
-			mapVal = st.Val
-		}
-	})
-	if mapVal == nil {
-		return nil
+	e.gobjs[g] = o
+	e.initPackage(g.Pkg)
+	return o
+}
+
+// globalScalars holds the package-level variables that are not aggregates (maps, slices, scalars), one slot each.
+func (e *evaluator) globalScalars(pkg *ssa.Package) *evObj {
+	if o, ok := e.gscal[pkg]; ok {
+		e.initPackage(pkg)
+		return o
 	}
-	okAll := true
-	n := 0
-	eachInstr(init, func(in ssa.Instruction) {
-		mu, ok := in.(*ssa.MapUpdate)
-		if !ok || mu.Map != mapVal {
-			return
-		}
-		k, isK := mu.Key.(*ssa.Const)
-		if !isK || k.Value == nil {
-			okAll = false
-			return
-		}
-		var val evVal
-		switch v := mu.Value.(type) {
-		case *ssa.Const:
-			if v.Value != nil {
-				val = evVal{k: evConst, c: v.Value, t: v.Type()}
-			} else {
-				val = evVal{k: evNil}
-			}
-		case *ssa.Function:
-			val = evVal{k: evFunc, fn: v}
-		case *ssa.MakeClosure:
-			if f, ok := v.Fn.(*ssa.Function); ok && len(v.Bindings) == 0 {
-				val = evVal{k: evFunc, fn: f}
-			}
-		case *ssa.MakeInterface:
-			val = evVal{k: evIface, t: v.X.Type()}
-		}
-		if val.k == evUnknown {
-			okAll = false
-			return
-		}
-		tab.fields["k:"+k.Value.ExactString()] = val
-		n++
-	})
-	if !okAll || n == 0 {
-		return nil
-	}
-	out := evVal{k: evObject, obj: tab}
-	e.globals[g] = &out
-	return &out
+	o := &evObj{fields: map[string]evVal{}}
+	e.gscal[pkg] = o
+	e.initPackage(pkg)
+	return o
 }
 
 func (e *evaluator) lookup(x *ssa.Lookup, m, k evVal) evVal {
